@@ -81,9 +81,9 @@ def schedule_freshness(folder, rng: Rng, n_episodes: int, n_steps: int, globals_
                 # `reset()` without a seed keeps the generators running (Gymnasium): the reference starts its reset from the generator
                 # state the long-lived environment had at its reset; everything else must not depend on the past
                 if reference:
-                    iso.restore_rng(saved_rng[k])
+                    iso.hand_rng(env, saved_rng[k])
                 else:
-                    saved_rng[k] = iso.save_rng()
+                    saved_rng[k] = iso.env_rng(env)
             rec = iso.run_ops(env, [op], canon, with_rng=True)[0]
             if op[0] == "reset" and globals_fp is not None:
                 rec["globals"] = canon.text(globals_fp())
